@@ -38,6 +38,57 @@ def readback(tex):
     return "".join(out), cmds
 
 
+def tokens(tex):
+    """Parse TeX text into a token list: plain characters and ("cmd", accent, [tokens of the argument])."""
+    out = []
+    i, n = 0, len(tex)
+    while i < n:
+        m = CMD.match(tex, i)
+        if not m:
+            out.append(tex[i])
+            i += 1
+            continue
+        depth, j = 1, m.end()
+        while j < n and depth:
+            if tex[j] == "{":
+                depth += 1
+            elif tex[j] == "}":
+                depth -= 1
+            j += 1
+        if depth:
+            raise Unbalanced(tex)
+        out.append(("cmd", m.group(1), tokens(tex[m.end():j - 1])))
+        i = j
+    return out
+
+
+def align(toks, text, pos=0):
+    """Match tokens against the input EXACTLY: a plain character must be the next input character itself; an
+    accent command must stand for a precomposed character whose canonical decomposition is (its argument,
+    its mark), or for its argument followed by the combining mark.  -> end position or None."""
+    for t in toks:
+        if isinstance(t, str):
+            if pos >= len(text) or text[pos] != t:
+                return None
+            pos += 1
+            continue
+        _, acc, arg = t
+        mark = ACCENTS[acc]
+        ok = None
+        if len(arg) == 1 and isinstance(arg[0], str) and pos < len(text):
+            dec = unicodedata.decomposition(text[pos]).split()
+            if len(dec) == 2 and not dec[0].startswith("<") and int(dec[0], 16) == ord(arg[0]) and int(dec[1], 16) == mark:
+                ok = pos + 1
+        if ok is None:
+            p2 = align(arg, text, pos)
+            if p2 is not None and p2 < len(text) and ord(text[p2]) == mark:
+                ok = p2 + 1
+        if ok is None:
+            return None
+        pos = ok
+    return pos
+
+
 def ambiguous(text):
     """The input itself spells an accent command: read-back is ambiguous by design."""
     return CMD.search(text) is not None
@@ -68,7 +119,9 @@ def check_text(uni2tex, text):
     if nfd(back) != nfd(text):
         return ("C19:not-equivalent", "uni2tex(%r) = %r reads back as %r, not canonically equivalent to the input"
                 % (text, tex, back))
-    for acc, arg in cmds:
-        if arg == "" or unicodedata.combining(arg[0]) and len(arg) == 1 and False:
-            return "C19:empty-base", "uni2tex(%r) = %r applies an accent to nothing" % (text, tex)
+    # "nothing else changes": outside accent commands every character is the input character itself, and
+    # every command stands for exactly the accented character (or base + mark) at that place
+    if align(tokens(tex), text) != len(text):
+        return ("C19:other-characters-changed", "uni2tex(%r) = %r: apart from accent commands the output is not the input "
+                "character for character" % (text, tex))
     return None
